@@ -638,6 +638,138 @@ fn roundtrips(chk: &Check, cnt: &Cnt, tier: Tier) {
     cnt.evals.fetch_add(128 + 23, Ordering::Relaxed);
 }
 
+// ---------------------------------------------------------------------------------------------
+// Types that do NOT implement Deserialize on the current tree: the three scanners. If a change gives
+// one of them a Deserialize impl, deserialisation becomes a new way to create a scanner, and "any
+// input that deserialises satisfies the invariants the constructors establish" then covers it: a
+// restored scanner must not panic on any subsequent feed. Probed by autoref specialisation, so this
+// compiles whether or not the impls exist.
+// ---------------------------------------------------------------------------------------------
+struct Wrap<T>(core::marker::PhantomData<T>);
+trait DeYes<T> {
+    fn de(&self, v: &Value) -> Option<Option<T>>;
+    fn ser(&self, t: &T) -> Option<Value>;
+}
+trait DeNo<T> {
+    fn de(&self, v: &Value) -> Option<Option<T>>;
+    fn ser(&self, t: &T) -> Option<Value>;
+}
+impl<T: DeserializeOwned + Serialize> DeYes<T> for Wrap<T> {
+    fn de(&self, v: &Value) -> Option<Option<T>> {
+        Some(catch(|| serde_json::from_value::<T>(v.clone()).ok()).unwrap_or(None))
+    }
+    fn ser(&self, t: &T) -> Option<Value> {
+        serde_json::to_value(t).ok()
+    }
+}
+impl<T> DeNo<T> for &Wrap<T> {
+    fn de(&self, _v: &Value) -> Option<Option<T>> {
+        None
+    }
+    fn ser(&self, _t: &T) -> Option<Value> {
+        None
+    }
+}
+
+/// every document that differs from `base` in exactly one numeric / boolean / null leaf
+fn leaf_mutations(base: &Value) -> Vec<Value> {
+    fn paths(v: &Value, cur: &mut Vec<String>, out: &mut Vec<Vec<String>>) {
+        match v {
+            Value::Array(a) => {
+                for (i, x) in a.iter().enumerate() {
+                    cur.push(i.to_string());
+                    paths(x, cur, out);
+                    cur.pop();
+                }
+            }
+            Value::Object(o) => {
+                for (k, x) in o.iter() {
+                    cur.push(k.clone());
+                    paths(x, cur, out);
+                    cur.pop();
+                }
+            }
+            _ => out.push(cur.clone()),
+        }
+    }
+    fn set(v: &mut Value, path: &[String], new: &Value) {
+        if path.is_empty() {
+            *v = new.clone();
+            return;
+        }
+        match v {
+            Value::Array(a) => set(&mut a[path[0].parse::<usize>().unwrap()], &path[1..], new),
+            Value::Object(o) => set(o.get_mut(&path[0]).unwrap(), &path[1..], new),
+            _ => {}
+        }
+    }
+    let mut ps = Vec::new();
+    paths(base, &mut Vec::new(), &mut ps);
+    let news = [json!(0), json!(1), json!(5), json!(31), json!(32), json!(40), json!(63), json!(64), json!(127), json!(128), json!(255), json!(16383), json!(16384), json!(65535), json!(true), json!(false), Value::Null];
+    let mut out = Vec::new();
+    for p in &ps {
+        for n in &news {
+            let mut d = base.clone();
+            set(&mut d, p, n);
+            out.push(d);
+        }
+    }
+    out
+}
+
+macro_rules! restored_scanner_probe {
+    ($chk:expr, $cnt:expr, $ty:ty, $name:expr, $make:expr, $prefixes:expr) => {{
+        let w = Wrap::<$ty>(core::marker::PhantomData);
+        let fresh: $ty = $make;
+        let implemented = (&w).ser(&fresh).is_some();
+        $chk.push("scanner_deserialize_probe", json!({"type": $name, "implements_serialize_and_deserialize": implemented}));
+        if implemented {
+            // templates: the serialised form of a new scanner and of scanners with progress
+            let mut templates: Vec<Value> = Vec::new();
+            for prefix in $prefixes.iter() {
+                let mut sc: $ty = $make;
+                for &(c, n, v) in prefix.iter() {
+                    let _ = sc.feed(&RawShortMessage::control_change(Channel::new(c), ControllerNumber::new(n), U7::new(v)));
+                }
+                if let Some(t) = (&w).ser(&sc) {
+                    templates.push(t);
+                }
+            }
+            for t in &templates {
+                for doc in leaf_mutations(t) {
+                    $cnt.evals.fetch_add(1, Ordering::Relaxed);
+                    if let Some(Some(sc)) = (&w).de(&doc) {
+                        // a restored scanner must survive every Control Change on the channels it was edited on
+                        for c in [0u8, 1, 15] {
+                            for n in 0..128u8 {
+                                let mut copy = sc;
+                                let r = catch(|| {
+                                    let _ = copy.feed(&RawShortMessage::control_change(Channel::new(c), ControllerNumber::new(n), U7::new(1)));
+                                });
+                                if let Err(p) = r {
+                                    $chk.violate(Violation::new("restored-scanner-panics", format!("C19/restored-scanner-panics/{}", $name), format!("{} deserialised from {} panics on feed(CC ch {} #{} =1): {}", $name, doc, c, n, p)));
+                                }
+                            }
+                        }
+                    }
+                }
+            }
+        }
+    }};
+}
+
+fn scanners(chk: &Check, cnt: &Cnt) {
+    let p14: [Vec<(u8, u8, u8)>; 3] = [vec![], vec![(0, 2, 8)], vec![(0, 2, 8), (1, 31, 127), (15, 0, 0)]];
+    restored_scanner_probe!(chk, cnt, ControlChange14BitMessageScanner, "ControlChange14BitMessageScanner", ControlChange14BitMessageScanner::new(), p14);
+    let pn: [Vec<(u8, u8, u8)>; 3] = [vec![], vec![(0, 99, 1), (0, 98, 2), (0, 38, 3)], vec![(0, 101, 1), (1, 100, 2), (15, 99, 127), (15, 98, 0), (15, 38, 5)]];
+    restored_scanner_probe!(chk, cnt, ParameterNumberMessageScanner, "ParameterNumberMessageScanner", ParameterNumberMessageScanner::new(), pn);
+    #[cfg(feature = "hm-std")]
+    {
+        let pp: [Vec<(u8, u8, u8)>; 3] = [vec![], vec![(0, 99, 1), (0, 98, 2), (0, 6, 3)], vec![(0, 101, 1), (1, 100, 2), (15, 99, 127), (15, 98, 0), (15, 38, 5)]];
+        restored_scanner_probe!(chk, cnt, PollingParameterNumberMessageScanner, "PollingParameterNumberMessageScanner", PollingParameterNumberMessageScanner::new(core::time::Duration::from_millis(2)), pp);
+    }
+}
+
 fn run_c19(chk: &Check, tier: Tier) {
     chk.set("helgoboss_midi_features", json!({"std": cfg!(feature = "hm-std"), "serde": true, "serde_repr": cfg!(feature = "hm-repr")}));
     chk.rule("with the serde feature, in the four combinations with / without std and serde_repr (one part each; ShortMessageType only with serde_repr): each of the six integer types through serde's primitive value deserializers (every u8/i8/u16/i16 value; boundary and truncation values for 32/64-bit; str, bool, unit, float, sequences, maps); composite types through serde_json::Value trees whose field values run over boundary sets that include the first invalid value of every field (RawShortMessage: all 257 status values x data grid; ControlChange14BitMessage: all 257 controller values, map and sequence form; ParameterNumberMessage: every combination of resolution flag, data type and value boundary; StructuredShortMessage: every variant x per-field {0,max,max+1,65536+5}; quarter frames, time code types, data types, type bytes 0..600). An accepted value must satisfy the constructors' invariants, equal a constructor-built value and survive its accessors/encoders; natural representations of valid values must round-trip. non-trivial = distinct inputs that violate a constructor precondition (must be rejected)");
@@ -650,6 +782,7 @@ fn run_c19(chk: &Check, tier: Tier) {
     ints_for::<ControllerNumber>(chk, &cnt, tier);
     composites(chk, &cnt, tier);
     roundtrips(chk, &cnt, tier);
+    scanners(chk, &cnt);
     chk.add_eval(cnt.evals.load(Ordering::Relaxed));
     chk.add_nontrivial(cnt.invalid_inputs.load(Ordering::Relaxed));
     chk.set("inputs_accepted_leniently_with_a_valid_result", json!(cnt.lenient.load(Ordering::Relaxed)));
